@@ -36,7 +36,7 @@ var templates = []func(r *rand.Rand) Tmpl{
 	tGoArgCopy, tSelectMux, tPingPong, tParallelFib, tMethodGoroutines, tSemaphore, tSelectSharedSend,
 	tGoBinArgs, tRWMutexMap, tOnceAtomic, tNestedSpawn, tSelectDefaultPoll, tGoBinNoReassign, tMethodViaClosure, tGoFuncVar, tClosureSlice,
 	tPrivateRecv, tPrivateRecv2, tPrivateSend, tPrivateRange, tPrivateSelect, tPrivateSelectForms, tPrivateRecvForms,
-	tSpawnLit, tSpawnFuncValue, tSpawnMethod, tSpawnDeclared, tSpawnHost,
+	tSpawnLit, tSpawnFuncValue, tSpawnMethod, tSpawnDeclared, tSpawnHost, tMethodValueCalls, tFuncValueCalls,
 }
 
 func tPipeline(r *rand.Rand) Tmpl {
@@ -1401,9 +1401,110 @@ func tSpawnHost(r *rand.Rand) Tmpl {
 	return spawn(r, "host", "", `go verif.Work(ch, p, m, f, w, &wg)`, true)
 }
 
+// a method value of a method with a VALUE receiver that writes to its receiver copy, called twice in a row and then by
+// W goroutines: every call works on a receiver variable of its own (the copy bound with the method value is only read)
+func tMethodValueCalls(r *rand.Rand) Tmpl {
+	w, n := 2+r.Intn(7), 200+r.Intn(1800)
+	base := r.Intn(500)
+	one := base + n*(n+1)/2
+	var parts []string
+	for i := 0; i < w; i++ {
+		parts = append(parts, fmt.Sprint(one+i))
+	}
+	return Tmpl{Name: "method-value-calls", Kind: "prog", ForceP1: true,
+		Expect: fmt.Sprintf("seq %d %d\n[%s]\nafter %d %d\n", base+55, base+55, strings.Join(parts, " "), base, base+55), Src: fmt.Sprintf(`package main
+
+import (
+	"fmt"
+	"sync"
+)
+
+type Acc struct {
+	total int
+	pad   [3]int
+}
+
+func (a Acc) Sum(n int) int {
+	for i := 1; i <= n; i++ {
+		a.total += i
+		a.pad[i%%3] = a.total
+	}
+	return a.total + a.pad[0] - a.pad[0]
+}
+
+func call(f func(int) int, n int, res []int, k int, wg *sync.WaitGroup) {
+	res[k] = f(n) + k
+	wg.Done()
+}
+
+func main() {
+	const W, N = %d, %d
+	a := Acc{total: %d}
+	sum := a.Sum
+	s1 := sum(10)
+	s2 := sum(10)
+	fmt.Println("seq", s1, s2)
+	res := make([]int, W)
+	var wg sync.WaitGroup
+	for w := 0; w < W; w++ {
+		wg.Add(1)
+		go call(sum, N, res, w, &wg)
+	}
+	wg.Wait()
+	fmt.Println(res)
+	fmt.Println("after", a.total, sum(10))
+}
+`, w, n, base)}
+}
+
+// the same with a function literal whose parameter is a struct it modifies: the parameters of every call are its own
+func tFuncValueCalls(r *rand.Rand) Tmpl {
+	w, n := 2+r.Intn(7), 200+r.Intn(1800)
+	one := n * (n + 1) / 2
+	var parts []string
+	for i := 0; i < w; i++ {
+		parts = append(parts, fmt.Sprint(one+7+i))
+	}
+	return Tmpl{Name: "func-value-calls", Kind: "prog", ForceP1: true,
+		Expect: fmt.Sprintf("seq %d %d\n[%s]\n", 62, 62, strings.Join(parts, " ")), Src: fmt.Sprintf(`package main
+
+import (
+	"fmt"
+	"sync"
+)
+
+type Acc struct{ total int }
+
+func call(f func(Acc, int) int, a Acc, n int, res []int, k int, wg *sync.WaitGroup) {
+	res[k] = f(a, n) + k
+	wg.Done()
+}
+
+func main() {
+	const W, N = %d, %d
+	sum := func(a Acc, n int) int {
+		for i := 1; i <= n; i++ {
+			a.total += i
+		}
+		return a.total
+	}
+	a := Acc{total: 7}
+	fmt.Println("seq", sum(a, 10), sum(a, 10))
+	res := make([]int, W)
+	var wg sync.WaitGroup
+	for w := 0; w < W; w++ {
+		wg.Add(1)
+		go call(sum, a, N, res, w, &wg)
+	}
+	wg.Wait()
+	fmt.Println(res)
+}
+`, w, n)}
+}
+
 // ---- stream C: one exported function called by N host goroutines ----
 
-var hostTemplates = []func(r *rand.Rand) Tmpl{hPure, hClosure, hInnerGoroutines, hRecursion, hSharedCounter, hSelectInside}
+var hostTemplates = []func(r *rand.Rand) Tmpl{hPure, hClosure, hInnerGoroutines, hRecursion, hSharedCounter, hSelectInside, hMethodValue}
 
 func hostCommon(name, class, body, final string, r *rand.Rand) Tmpl {
 	return Tmpl{Name: name, Class: class, Kind: "host", Src: "package main\n\n" + body, Fn: "F", Final: final, N: 2 + r.Intn(7), Calls: 3 + r.Intn(10)}
@@ -1500,6 +1601,28 @@ func Final() int {
 `, "Final", r)
 }
 
+// the host calls, from N goroutines, the method VALUE `Shared.Sum` of a package-level variable: a value receiver that
+// accumulates into its copy; every call must start from the bound copy
+func hMethodValue(r *rand.Rand) Tmpl {
+	t := hostCommon("host-method-value", "", fmt.Sprintf(`type Acc struct {
+	total int
+	pad   [2]int
+}
+
+func (a Acc) Sum(n int) int {
+	for i := 1; i <= n%%50+20; i++ {
+		a.total += i
+		a.pad[i%%2] = a.total
+	}
+	return a.total + n
+}
+
+var Shared = Acc{total: %d}
+`, r.Intn(1000)), "", r)
+	t.Fn = "Shared.Sum"
+	return t
+}
+
 func hSelectInside(r *rand.Rand) Tmpl {
 	return hostCommon("host-select-inside", "", `func F(n int) int {
 	a := make(chan int, 1)
@@ -1559,7 +1682,7 @@ func main() {
 			defer wg.Done()
 			for k := 0; k < C; k++ {
 				arg := g*100 + k
-				lines[g] = append(lines[g], fmt.Sprintf("%%d->%%d", arg, F(arg)))
+				lines[g] = append(lines[g], fmt.Sprintf("%%d->%%d", arg, HOSTFN(arg)))
 			}
 		}(g)
 	}
@@ -1573,6 +1696,9 @@ func main() {
 		fmt.Println(l)
 	}
 `, t.N, t.Calls)
+	out := strings.Replace(b.String(), "HOSTFN(arg)", t.Fn+"(arg)", 1)
+	b.Reset()
+	b.WriteString(out)
 	if t.Final != "" {
 		fmt.Fprintf(&b, "\tfmt.Println(\"final\", %s())\n", t.Final)
 	}
